@@ -56,7 +56,18 @@ void *h_mmap(void *addr, size_t len, int prot, int flags, int fd, off_t off) {
     int d = simos_suspend();
     void *ret = MAP_FAILED;
     M.n_map_calls++;
-    if (len == 0 || len > OS_LIMIT) errno = len ? ENOMEM : EINVAL; // the simulated machine has 64 MiB to give
+    if (len > OS_LIMIT && len < ((size_t) 1 << 46) && (flags & MAP_NORESERVE)) {
+        // without reservation the kernel hands out address space it cannot back: the mapping succeeds, touching it is what
+        // kills the process (here: the pages are simply not accessible)
+        void *raw = simos_real_mmap(addr, len, PROT_NONE, flags, fd, off);
+        if (raw != MAP_FAILED) {
+            Region r; r.base = (uintptr_t) raw; r.len = (len + M.P - 1) / M.P * M.P; r.kind = 'M'; r.prot.assign(1, PROT_NONE); r.locked.assign(1, false); r.ordinal = M.next_ordinal++;
+            M.anomalies.push_back("a mapping of " + std::to_string(len) + " bytes was requested without reservation and granted although the machine cannot back it");
+            M.regions[r.base] = r;
+            ret = raw;
+        }
+    }
+    else if (len == 0 || len > OS_LIMIT) errno = len ? ENOMEM : EINVAL; // the simulated machine has 64 MiB to give
 #ifdef MAP_LOCKED
     else if ((flags & MAP_LOCKED) && lock_outcome_peek() != 0) errno = EAGAIN; // locked-memory limit applies inside mmap too
 #endif
